@@ -489,6 +489,34 @@ package stick
 //@   loop 1 invariant frame: xinv(s) && s.scope == old(s.scope) && len(s.scope.scopes) == old(len(s.scope.scopes)) && (forall i trig :: 0 <= i && i < len(s.scope.scopes) ==> s.scope.scopes[i] == old(s.scope.scopes[i])) && s.name == old(s.name) && s.current == old(s.current) && s.env == old(s.env) && len(s.blocks) >= old(len(s.blocks)) && (forall p trig :: allocated(p) && p != old(s.scope) ==> fld("stick.scopeStack", "scopes", p) == old(fld("stick.scopeStack", "scopes", p))) && s.out == old(s.out) && (forall w trig :: allocated(w) ==> rbuflen(w) == old(rbuflen(w)) && rbufdata(w) == old(rbufdata(w))) && (wfail() ==> old(wfail())) && openfiles() == old(openfiles()) && (wafterfail() ==> old(wafterfail()) || old(wfail()))
 
 //@ func stick.(*state).evalExpr
+// C05: one value clause per operator / literal arm, against the spec functions of the coercions (numspec, strspec,
+// truthspec: C15): the operator table of the language
+//@   asserts@parse.OpBinaryAdd val: r1 == nil && istype(r0, "float64") && unbox(r0, "float64") == numspec(left) + numspec(right)
+//@   asserts@parse.OpBinarySubtract val: r1 == nil && istype(r0, "float64") && unbox(r0, "float64") == numspec(left) - numspec(right)
+//@   asserts@parse.OpBinaryMultiply val: r1 == nil && istype(r0, "float64") && unbox(r0, "float64") == numspec(left) * numspec(right)
+//@   asserts@parse.OpBinaryDivide val: r1 == nil && istype(r0, "float64") && unbox(r0, "float64") == numspec(left) / numspec(right)
+//@   asserts@parse.OpBinaryGreaterEqual val: r1 == nil && istype(r0, "bool") && unbox(r0, "bool") == (numspec(left) >= numspec(right))
+//@   asserts@parse.OpBinaryGreaterThan val: r1 == nil && istype(r0, "bool") && unbox(r0, "bool") == (numspec(left) > numspec(right))
+//@   asserts@parse.OpBinaryLessEqual val: r1 == nil && istype(r0, "bool") && unbox(r0, "bool") == (numspec(left) <= numspec(right))
+//@   asserts@parse.OpBinaryLessThan val: r1 == nil && istype(r0, "bool") && unbox(r0, "bool") == (numspec(left) < numspec(right))
+//@   asserts@parse.OpBinaryAnd val: r1 == nil && istype(r0, "bool") && unbox(r0, "bool") == (truthspec(left) && truthspec(right))
+//@   asserts@parse.OpBinaryOr val: r1 == nil && istype(r0, "bool") && unbox(r0, "bool") == (truthspec(left) || truthspec(right))
+//@   asserts@parse.OpBinaryEqual val: r1 == nil && istype(r0, "bool") && unbox(r0, "bool") == (strspec(left) == strspec(right))
+//@   asserts@parse.OpBinaryNotEqual val: r1 == nil && istype(r0, "bool") && unbox(r0, "bool") == !(strspec(left) == strspec(right))
+//@   asserts@parse.OpBinaryStartsWith val: r1 == nil && istype(r0, "bool")
+//@   asserts@parse.OpBinaryConcat val: r1 == nil && istype(r0, "string") && len(unbox(r0, "string")) == len(strspec(left)) + len(strspec(right))
+//@   asserts@parse.OpBinaryModulo val: r1 == nil ==> istype(r0, "float64") && trunc(numspec(right)) != 0
+//@   asserts@parse.OpUnaryNot val: r1 == nil && istype(r0, "bool") && unbox(r0, "bool") == !truthspec(in)
+//@   asserts@parse.OpUnaryNegative val: r1 == nil && istype(r0, "float64") && unbox(r0, "float64") == 0 - numspec(in)
+//@   asserts@parse.OpUnaryPositive val: r1 == nil && istype(r0, "float64") && unbox(r0, "float64") == numspec(in)
+//@   asserts@*parse.NullExpr val: r0 == nil && r1 == nil
+//@   asserts@*parse.BoolExpr val: r1 == nil && istype(r0, "bool") && unbox(r0, "bool") == exp.Value
+//@   asserts@*parse.StringExpr val: r1 == nil && istype(r0, "string") && unbox(r0, "string") == exp.Text
+//@   asserts@*parse.NumberExpr val: r1 == nil ==> istype(r0, "float64") && unbox(r0, "float64") == parsefloat(exp.Value)
+// C05/C06: the conditional evaluates exactly the branch selected by the truth of the condition
+//@   at "s.evalExpr(exp.TrueX)" then: truthspec(cond)
+//@   at "s.evalExpr(exp.FalseX)" otherwise: !truthspec(cond)
+// C05: a registered test receives the evaluated arguments; functions and filters: see evalFunction / evalFilter
 // C11: _self.m(..) and alias.m(..) reach callMacro with one argument value per argument expression, in order; an
 // unknown macro of an imported set is an error
 //@   at "s.callMacro(macroDef{macro}, args...)" self: len(args) == len(exargs) && macro != nil
@@ -519,6 +547,8 @@ package stick
 //@   loop 5 invariant frame: xinv(s) && s.scope == old(s.scope) && len(s.scope.scopes) == old(len(s.scope.scopes)) && (forall i trig :: 0 <= i && i < len(s.scope.scopes) ==> s.scope.scopes[i] == old(s.scope.scopes[i])) && s.name == old(s.name) && s.current == old(s.current) && s.env == old(s.env) && len(s.blocks) >= old(len(s.blocks)) && (forall p trig :: allocated(p) && p != old(s.scope) ==> fld("stick.scopeStack", "scopes", p) == old(fld("stick.scopeStack", "scopes", p))) && s.out == old(s.out) && (forall w trig :: allocated(w) ==> rbuflen(w) == old(rbuflen(w)) && rbufdata(w) == old(rbufdata(w))) && (wfail() ==> old(wfail())) && openfiles() == old(openfiles()) && (wafterfail() ==> old(wafterfail()) || old(wfail()))
 
 //@ func stick.(*state).evalFunction
+// C05: a registered function is called once, with one evaluated value per argument expression
+//@   at "fn(s, args...)" call: len(args) == len(eargs) && fn != nil
 // C11: a from-imported macro reaches callMacro the same way
 //@   at "s.callMacro(macroDef{macro}, args...)" from: len(args) == len(eargs) && macro != nil
 //@   propagates
@@ -543,6 +573,8 @@ package stick
 //@   loop 3 invariant frame: xinv(s) && s.scope == old(s.scope) && len(s.scope.scopes) == old(len(s.scope.scopes)) && (forall i trig :: 0 <= i && i < len(s.scope.scopes) ==> s.scope.scopes[i] == old(s.scope.scopes[i])) && s.name == old(s.name) && s.current == old(s.current) && s.env == old(s.env) && len(s.blocks) >= old(len(s.blocks)) && (forall p trig :: allocated(p) && p != old(s.scope) ==> fld("stick.scopeStack", "scopes", p) == old(fld("stick.scopeStack", "scopes", p))) && s.out == old(s.out) && (forall w trig :: allocated(w) ==> rbuflen(w) == old(rbuflen(w)) && rbufdata(w) == old(rbufdata(w))) && (wfail() ==> old(wfail())) && openfiles() == old(openfiles()) && (wafterfail() ==> old(wafterfail()) || old(wfail()))
 
 //@ func stick.(*state).evalFilter
+// C05: a registered filter is called once; the piped value (first argument expression) comes first
+//@   at "fn(s, args[0], args[1:]...)" call: len(args) == len(eargs) && len(args) >= 1 && fn != nil
 //@   propagates
 //@   ensures wfail: wfail() && !old(wfail()) ==> err != nil
 //@   ensures order: wafterfail() ==> old(wafterfail()) || old(wfail())
